@@ -194,18 +194,27 @@ func (p *plug) Execute(ctx context.Context, req any) (any, *plugins.Error) {
 		return RespV{Tag: tag, N: n}, e
 	case WrongTypeErr:
 		e := ScriptedError(tag, n, st)
-		if p.ptr {
-			return RespV{Tag: tag, N: n}, e
-		}
-		return &RespP{Tag: tag, N: n}, e
+		return p.wrongTyped(tag, n, st), e
 	case WrongType:
-		if p.ptr {
-			return RespV{Tag: tag, N: n}, nil
-		}
-		return &RespP{Tag: tag, N: n}, nil
+		return p.wrongTyped(tag, n, st), nil
 	default:
 		return nil, ScriptedError(tag, n, st)
 	}
+}
+
+// wrongTyped returns a response whose type differs from the declared one: another struct type (even Wrap) or the
+// declared struct at the other pointer level — *T for a declared T, T for a declared *T (odd Wrap).
+func (p *plug) wrongTyped(tag string, n int, st Step) any {
+	if st.Wrap%2 == 1 {
+		if p.ptr {
+			return RespP{Tag: tag, N: n}
+		}
+		return &RespV{Tag: tag, N: n}
+	}
+	if p.ptr {
+		return RespV{Tag: tag, N: n}
+	}
+	return &RespP{Tag: tag, N: n}
 }
 
 const overrunGuard = 8 * time.Second
